@@ -13,7 +13,8 @@
 (*                  new connection is dialed — only if no existing one can *)
 (*                  take it                                                *)
 (*   DialStart(k)   the dial function is invoked (names the connection)    *)
-(*   DialOk/DialFail(k)                                                    *)
+(*   DialOk/DialFail(k)   the dial function returns                        *)
+(*   DialPublish(k)       close(dialFinished): the result becomes visible  *)
 (*   EarlyAdmit / EarlyRefuse / EarlyFail(c)  early caller after           *)
 (*                  dialFinished: re-reserves on the real connection       *)
 (*   Write(c), Reply(c), Finish(c), Return(c)                              *)
@@ -27,7 +28,8 @@ EXTENDS Integers, FiniteSets, Sequences, TLC
 CONSTANTS Callers, Slots, QLimits, CLimits, MaxCalls, MaxDialFail, DOUBLE_COUNT
 
 VARIABLES qlim, clim,
-          cst,      \* slot -> "none" | "new" (dial goroutine not yet in the dial func) | "dialing" | "ready" | "failed"
+          cst,      \* slot -> "none" | "new" (dial goroutine not yet in the dial func) | "dialing" |
+                    \*         "okret" / "failret" (dial func returned, dialFinished not yet closed) | "ready" | "failed"
           name,     \* slot -> observed connection number (0 = not yet named)
           early,    \* slot -> set of callers queued while dialing
           inuse,    \* slot -> set of callers admitted by the established connection
@@ -50,8 +52,11 @@ Init ==
 Counted(s) == Cardinality(inuse[s]) +
               (IF DOUBLE_COUNT THEN Cardinality({c \in inuse[s] : pc[c] \in {"written", "finishing"}}) ELSE 0)
 
+\* states in which the lazy connection still queues callers as early reservations
+Dialing == {"new", "dialing", "okret", "failret"}
+
 CanTake(s) ==
-    \/ cst[s] \in {"new", "dialing"} /\ Cardinality(early[s]) < qlim
+    \/ cst[s] \in Dialing /\ Cardinality(early[s]) < qlim
     \/ cst[s] = "ready" /\ Cardinality(inuse[s]) + Cardinality(early[s]) < clim
 
 Call(c) ==
@@ -61,7 +66,7 @@ Call(c) ==
     /\ UNCHANGED <<qlim, clim, cst, name, early, inuse, at, calls, creator, replied, ndialfail, spurious>>
 
 AttachEarly(c, s) ==
-    /\ pc[c] = "calling" /\ cst[s] \in {"new", "dialing"} /\ Cardinality(early[s]) < qlim
+    /\ pc[c] = "calling" /\ cst[s] \in Dialing /\ Cardinality(early[s]) < qlim
     /\ early' = [early EXCEPT ![s] = @ \cup {c}]
     /\ pc' = [pc EXCEPT ![c] = "early"] /\ at' = [at EXCEPT ![c] = s] /\ creator' = [creator EXCEPT ![c] = FALSE]
     /\ UNCHANGED <<qlim, clim, cst, name, inuse, res, tries, calls, replied, ndialfail, spurious>>
@@ -88,14 +93,21 @@ DialStart(s, k) ==
     /\ cst[s] = "new" /\ cst' = [cst EXCEPT ![s] = "dialing"] /\ name' = [name EXCEPT ![s] = k]
     /\ UNCHANGED <<qlim, clim, early, inuse, pc, at, res, tries, calls, creator, replied, ndialfail, spurious>>
 
+\* the dial function returns ...
 DialOk(s) ==
-    /\ cst[s] = "dialing" /\ cst' = [cst EXCEPT ![s] = "ready"]
+    /\ cst[s] = "dialing" /\ cst' = [cst EXCEPT ![s] = "okret"]
     /\ UNCHANGED <<qlim, clim, name, early, inuse, pc, at, res, tries, calls, creator, replied, ndialfail, spurious>>
 
 DialFail(s) ==
     /\ cst[s] = "dialing" /\ ndialfail < MaxDialFail
-    /\ cst' = [cst EXCEPT ![s] = "failed"] /\ ndialfail' = ndialfail + 1
+    /\ cst' = [cst EXCEPT ![s] = "failret"] /\ ndialfail' = ndialfail + 1
     /\ UNCHANGED <<qlim, clim, name, early, inuse, pc, at, res, tries, calls, creator, replied, spurious>>
+
+\* ... and the dial goroutine publishes the result (close(dialFinished) under lc.mu)
+DialPublish(s) ==
+    /\ cst[s] \in {"okret", "failret"}
+    /\ cst' = [cst EXCEPT ![s] = IF cst[s] = "okret" THEN "ready" ELSE "failed"]
+    /\ UNCHANGED <<qlim, clim, name, early, inuse, pc, at, res, tries, calls, creator, replied, ndialfail, spurious>>
 
 \* an early caller's outcome is final if it created the connection or has retried twice; else it may retry
 EndOrRetry(c, e) ==
@@ -153,7 +165,7 @@ Next ==
     \/ \E c \in Callers : Call(c) \/ EarlyAdmit(c) \/ EarlyRefuse(c) \/ EarlyFail(c) \/ Write(c) \/ Reply(c)
                           \/ Finish(c) \/ Release(c) \/ Return(c)
     \/ \E c \in Callers, s \in Slots : AttachEarly(c, s) \/ AttachReady(c, s) \/ AttachNew(c, s)
-    \/ \E s \in Slots : DialStart(s, s) \/ DialOk(s) \/ DialFail(s)
+    \/ \E s \in Slots : DialStart(s, s) \/ DialOk(s) \/ DialFail(s) \/ DialPublish(s)
 
 Spec == Init /\ [][Next]_vars
 
